@@ -39,6 +39,8 @@ package rpc
 //@   property C07 C08
 //@   requires !isnil(v) && fitsVarint(buf)
 //@   ensures result == vlen(buf) && *v == vval(buf)
+//@   ensures [C07] forall(x, uint64(0), 0xFFFFFFFFFFFFFFFF, implies(isVarintAt(buf, 0, x), result == vsize(x) && *v == x))
+//@   ensures [C07] implies(isVarintAt(buf, 0, 0xFFFFFFFFFFFFFFFF), result == 10 && *v == 0xFFFFFFFFFFFFFFFF)
 //@   modifies *v
 
 //@ func code.DecodeBytes
@@ -46,6 +48,7 @@ package rpc
 //@   requires !isnil(v) && fitsLP(buf)
 //@   ensures result == vlen(buf) + vval(buf)
 //@   ensures arr(*v) == arr(buf) && off(*v) == off(buf) + int(vlen(buf)) && len(*v) == int(vval(buf)) && cap(*v) == cap(buf) - int(vlen(buf))
+//@   ensures [C07] forall(n, uint64(0), 0xFFFFFFFFFFFFFFFF, implies(isVarintAt(buf, 0, n), result == vsize(n) + n && len(*v) == int(n) && off(*v) == off(buf) + int(vsize(n))))
 //@   modifies *v
 
 //@ func code.DecodeString
@@ -53,6 +56,7 @@ package rpc
 //@   requires !isnil(v) && fitsLP(buf)
 //@   ensures result == vlen(buf) + vval(buf)
 //@   ensures arr(*v) == arr(buf) && off(*v) == off(buf) + int(vlen(buf)) && len(*v) == int(vval(buf))
+//@   ensures [C07] forall(n, uint64(0), 0xFFFFFFFFFFFFFFFF, implies(isVarintAt(buf, 0, n), result == vsize(n) + n && len(*v) == int(n) && off(*v) == off(buf) + int(vsize(n))))
 //@   modifies *v
 
 //@ func checkBuffer
@@ -131,13 +135,30 @@ package rpc
 //@ func varintSize
 //@   property C08 C07
 //@   ensures result == 0 || (result == vlen(b) && fitsVarint(b))
+//@   ensures [C07] implies(fitsVarint(b), result != 0)
 //@   ensures result <= 10
 //@   loop 1: unroll 10
+// fitsF: a complete length-prefixed field lies inside len(b) (what fieldSize decides)
+//@ pure fitsF(b []byte) bool = fitsVarint(b) && vval(b) <= uint64(len(b)) - vlen(b)
 //@ func fieldSize
 //@   property C08 C07
+//@   ensures [C07] implies(fitsF(b), result != 0)
 //@   ensures result == 0 || (fitsVarint(b) && vval(b) <= uint64(len(b)) - vlen(b) && result == vlen(b) + vval(b))
 //@   ensures result == 0 || (1 <= result && result <= uint64(len(b)) && 1 <= vlen(b) && vlen(b) <= 10)
 //@   ensures implies(result > 0 && b[0] < 0x80, result == 1 + uint64(b[0]) && vlen(b) == 1 && vval(b) == uint64(b[0]))
+// decode-side format of one length-prefixed field at offset o of frame d: the field is the vval(d[o:]) bytes behind the
+// vlen(d[o:])-byte length prefix (an empty field leaves the destination as it was: empty); lpEnd = offset behind the field
+//@ pure lpAt(f []byte, d []byte, o uint64) bool = len(f) == int(vval(d[o:])) && implies(len(f) > 0, arr(f) == arr(d) && off(f) == off(d) + int(o + vlen(d[o:])))
+//@ pure lpStrAt(f string, d []byte, o uint64) bool = len(f) == int(vval(d[o:])) && implies(len(f) > 0, arr(f) == arr(d) && off(f) == off(d) + int(o + vlen(d[o:])))
+//@ pure lpEnd(d []byte, o uint64) uint64 = o + vlen(d[o:]) + vval(d[o:])
+// decode-side format of a canonical protobuf request/response frame (fields in order 1,2,3(,4), each at most once, nothing else):
+// pbP<k> = field k is present at its place, pbE<k> = offset behind field k; canonical: pbE3(d) == len(d)
+//@ pure pbP1(d []byte) bool = len(d) > 0 && d[0] == 0x08
+//@ pure pbE1(d []byte) uint64 = ite(pbP1(d), 1 + vlen(d[1:]), 0)
+//@ pure pbP2(d []byte) bool = pbE1(d) < uint64(len(d)) && d[pbE1(d)] == 0x12
+//@ pure pbE2(d []byte) uint64 = ite(pbP2(d), lpEnd(d, pbE1(d)+1), pbE1(d))
+//@ pure pbP3(d []byte) bool = pbE2(d) < uint64(len(d)) && d[pbE2(d)] == 0x1a
+//@ pure pbE3(d []byte) uint64 = ite(pbP3(d), lpEnd(d, pbE2(d)+1), pbE2(d))
 //@ func (*pbRequest).Unmarshal
 //@   case safety:
 //@     property C08
@@ -153,6 +174,16 @@ package rpc
 //@     requires res != nil && len(res.Error) == 0 && len(res.Reply) == 0
 //@     loop 1: invariant offset <= length && sub(res.Error, data) && sub(res.Reply, data)
 //@     ensures implies(err == nil, sub(res.Error, data) && sub(res.Reply, data))
+//@   case format:
+//@     property C07 C01 C06
+//@     opaque vlen, vval
+//@     requires res != nil && len(res.Error) == 0 && len(res.Reply) == 0
+//@     requires pbE3(data) == uint64(len(data))
+//@     loop 1: unroll 4
+//@     ensures implies(err == nil, res.Seq == ite(pbP1(data), vval(data[1:]), old(res.Seq)))
+//@     ensures implies(err == nil, ite(pbP2(data), lpStrAt(res.Error, data, pbE1(data)+1), len(res.Error) == 0))
+//@     ensures implies(err == nil, ite(pbP3(data), lpAt(res.Reply, data, pbE2(data)+1), len(res.Reply) == 0))
+//@     ensures implies(implies(pbP1(data), fitsVarint(data[1:])) && implies(pbP2(data), fitsF(data[pbE1(data)+1:])) && implies(pbP3(data), fitsF(data[pbE2(data)+1:])), err == nil)
 
 //@ func (*request).Unmarshal
 //@   case safety:
@@ -160,6 +191,13 @@ package rpc
 //@     opaque vlen, vval
 //@     requires req != nil && len(req.Upgrade) == 0 && len(req.ServiceMethod) == 0 && len(req.Args) == 0
 //@     ensures implies(err == nil, sub(req.Upgrade, data) && sub(req.ServiceMethod, data) && sub(req.Args, data))
+//@   case format:
+//@     property C07 C01 C06
+//@     opaque vlen, vval
+//@     requires req != nil && len(req.Upgrade) == 0 && len(req.ServiceMethod) == 0 && len(req.Args) == 0
+//@     ensures implies(err == nil, req.Seq == vval(data) && lpAt(req.Upgrade, data, vlen(data)) && lpStrAt(req.ServiceMethod, data, lpEnd(data, vlen(data))) &&
+//@         lpAt(req.Args, data, lpEnd(data, lpEnd(data, vlen(data)))) && result == lpEnd(data, lpEnd(data, lpEnd(data, vlen(data)))))
+//@     ensures implies(fitsVarint(data) && fitsF(data[vlen(data):]) && fitsF(data[lpEnd(data, vlen(data)):]) && fitsF(data[lpEnd(data, lpEnd(data, vlen(data))):]), err == nil)
 
 //@ func (*response).Unmarshal
 //@   case safety:
@@ -167,6 +205,12 @@ package rpc
 //@     opaque vlen, vval
 //@     requires res != nil && len(res.Error) == 0 && len(res.Reply) == 0
 //@     ensures implies(err == nil, sub(res.Error, data) && sub(res.Reply, data))
+//@   case format:
+//@     property C07 C01 C06
+//@     opaque vlen, vval
+//@     requires res != nil && len(res.Error) == 0 && len(res.Reply) == 0
+//@     ensures implies(err == nil, res.Seq == vval(data) && lpStrAt(res.Error, data, vlen(data)) && lpAt(res.Reply, data, lpEnd(data, vlen(data))) && result == lpEnd(data, lpEnd(data, vlen(data))))
+//@     ensures implies(fitsVarint(data) && fitsF(data[vlen(data):]) && fitsF(data[lpEnd(data, vlen(data)):]), err == nil)
 
 // ---- protobuf response: field 1 varint Seq (0x08), 2 string Error (0x12), 3 bytes Reply (0x1a) ----
 //@ pure pbResB(r *pbResponse, k int) uint64 = ite(k >= 1 && r.Seq != 0, 1+vsize(r.Seq), 0) +
@@ -290,7 +334,7 @@ package rpc
 //@   ghostset gf_addr(result0) = sid(addr)
 //@   ghostset gb_aliveSeen(result0) = true
 //@   ensures implies(err == nil, result0 != nil && fresh(result0) && gf_addr(result0) == sid(addr) && gb_aliveSeen(result0) && result0.Conn != nil)
-//@   ensures implies(err != nil, result0 == nil && err == ErrDial)
+//@   ensures [C13 C14 C18] implies(err != nil, result0 == nil && err == ErrDial)
 //@   modifies fresh
 
 //@ func (*conns).Cursor
@@ -317,8 +361,8 @@ package rpc
 //@   requires t != nil
 //@   ensures implies(len(addr) == 0, pc == nil && err == ErrDial)
 //@   ensures implies(err == nil, pc != nil && gf_addr(pc) == sid(addr))
-//@   ensures [C14] implies(err == nil, gb_aliveSeen(pc))
-//@   ensures implies(err != nil, pc == nil && err == ErrDial)
+//@   ensures [C14 C18] implies(err == nil, gb_aliveSeen(pc))
+//@   ensures [C13 C14 C15 C18] implies(err != nil, pc == nil && err == ErrDial)
 //@   ghostset gg_gotpc() = ref(pc)
 //@   ghostset gg_gotconn() = ref(pc.Conn)
 //@   ghostset gg_gotaddr() = gf_addr(pc)
@@ -447,6 +491,7 @@ package rpc
 
 //@ func (*Client).checkPending
 //@   property C18
+//@   ghostset gg_cpn() = gg_cpn() + 1
 //@   requires c != nil && holds(Client_lock) && c.pending != nil && forallkey(s, c.pending, c.pending[s] != nil && s < c.seq)
 //@   ensures len(c.pending) == 0 || len(c.pending) == old(len(c.pending))
 //@   ensures forallkey(s, c.pending, c.pending[s] != nil && s < c.seq)
@@ -581,7 +626,8 @@ package rpc
 //@   property C18 C16
 //@   requires c != nil && c.Alpha >= 0.0 && c.Alpha <= 1.0
 //@   atcall (*Client).checkPending#1: [C18] holds(Client_lock)
-//@   loop 1: invariant true
+//@   ensures [C18] gg_cpn() == old(gg_cpn()) + 1
+//@   loop 1: invariant gg_cpn() == old(gg_cpn())
 
 // ---------------------------------------------------------------------------
 // Part 5: Conn (conn.go) — lock Conn.mutex
@@ -600,6 +646,7 @@ package rpc
 //@   invariant forallkey(s, self.streams, self.streams[s] != nil)
 //@   invariant [C02] implies(!self.shutdown, forallkey(s, self.pending, gf_tok(self.pending[s]) == 1 || gb_internal(self.pending[s])))
 //@   invariant [C02] implies(self.shutdown, forallkey(s, self.pending, gf_tok(self.pending[s]) != 1 || gb_internal(self.pending[s])))
+//@   invariant [C02] implies(!self.shutdown, forallkey(s, self.pending, self.pending[s].Done != nil || gb_internal(self.pending[s])))
 //@   invariant [C02] forallkey(s, self.pending, implies(gf_tok(self.pending[s]) == 1 && !gb_internal(self.pending[s]), gv_slot(self.pending[s]) == s))
 //@   invariant [C02] forallkey(s, self.pending, implies(gf_tok(self.pending[s]) == 2, gb_internal(self.pending[s])))
 //@   invariant [C09] forallkey(s, self.pending, gb_internal(self.pending[s]) == (self.pending[s].upgrade.Stream == 1 || self.pending[s].upgrade.Stream == 2))
@@ -649,11 +696,12 @@ package rpc
 //@   property C02
 //@   requires call != nil
 //@   requires [C02 C08] gf_tok(call) == 2 || gb_internal(call)
+//@   requires [C02] call.Done != nil || gb_internal(call)
 //@   ghostset gf_tok(call) = ite(gb_internal(call), gf_tok(call), 0)
 //@   ghostset gg_dones() = gg_dones() + 1
 
 //@ pure sendable(conn *Conn, call *Call) bool = conn != nil && call != nil && call.upgrade != nil &&
-//@      legalUpgrade(call.upgrade) && implies(call.upgrade.Stream > 0, call.stream != nil) && (gf_tok(call) == 2 || gb_internal(call)) &&
+//@      legalUpgrade(call.upgrade) && implies(call.upgrade.Stream > 0, call.stream != nil) && (gf_tok(call) == 2 || gb_internal(call)) && (call.Done != nil || gb_internal(call)) &&
 //@      gb_internal(call) == (call.upgrade.Stream == 1 || call.upgrade.Stream == 2) && implies(gb_internal(call), call.upgrade.NoResponse == 1)
 
 //@ func (*Conn).send
@@ -691,6 +739,7 @@ package rpc
 //@   property C01 C02 C08 C11 C19
 //@   requires conn != nil && ctx != nil && call != nil && conn.bufferPool != nil
 //@   requires [C02] gf_tok(call) == 2 && !gb_internal(call)
+//@   requires [C02] call.Done != nil
 //@   ensures [C02] gf_tok(call) == 0 && gg_dones() == old(gg_dones()) + 1
 //@   atcall buffer.(*Pool).PutBuffer#1: [C11 C01] len(old(ctx.value)) == 0 || arr(call.Value) != arr(buf) || arr(call.Value) == arr(old(call.Buffer))
 //@   ensures [C01] gg_rbody() == old(gg_rbody()) + 1
@@ -711,6 +760,7 @@ package rpc
 //@   property C02 C05
 //@   requires call != nil
 //@   requires [C02] gf_tok(call) == 2 || gb_internal(call)
+//@   requires [C02] call.Done != nil || gb_internal(call)
 //@   consumes gf_tok(call)
 //@ func (*Conn).read$2
 //@   requires conn != nil && ctx != nil && call != nil && conn.bufferPool != nil && gb_internal(call) && call.upgrade != nil
@@ -718,11 +768,13 @@ package rpc
 //@   property C02 C05
 //@   requires conn != nil && ctx != nil && call != nil && conn.bufferPool != nil
 //@   requires [C02] gf_tok(call) == 2 && !gb_internal(call)
+//@   requires [C02] call.Done != nil
 //@   consumes gf_tok(call)
 //@ func (*Conn).read$4
 //@   property C02 C05
 //@   requires conn != nil && ctx != nil && call != nil && conn.bufferPool != nil
 //@   requires [C02] gf_tok(call) == 2 && !gb_internal(call)
+//@   requires [C02] call.Done != nil
 //@   consumes gf_tok(call)
 
 //@ func (*Conn).recv$1
@@ -1104,12 +1156,14 @@ package rpc
 //@   ensures [C04] gg_exec() <= old(gg_exec()) + 1 && gg_wresp() <= old(gg_wresp()) + 1
 //@   ensures [C04] implies(old(ctx.upgrade.Stream) == 0, gg_wresp() == old(gg_wresp()) + 1)
 //@   ensures implies(old(ctx.upgrade.Stream) == 1, ctx.stream == old(ctx.stream))
+//@   ensures [C10 C20] implies(wg != nil, gg_wgdone() == old(gg_wgdone()) + 1) && implies(wg == nil, gg_wgdone() == old(gg_wgdone()))
 
 //@ pure streamsOK(streams map[uint64]*Context) bool = streams != nil && forallkey(s, streams, streams[s] != nil && gb_registered(streams[s]) && streams[s].stream != nil && streams[s].stream.close != nil)
 
 //@ func (*Server).ServeRequest
 //@   property C04 C05 C08 C10
 //@   requires srvOK(server) && ctxOK(ctx) && streamsOK(streams) && !gb_registered(ctx)
+//@   requires [C10 C20] !isnil(wg)
 //@   ghostat mapupdate map[uint64]*Context#1: gb_registered(arg0) = true
 //@   ensures [C04] gg_exec() <= old(gg_exec()) + 1 && gg_wresp() <= old(gg_wresp()) + 1
 //@   ensures streamsOK(streams)
@@ -1117,24 +1171,34 @@ package rpc
 //@   atcall (*stream).Close#1: [C10] true
 //@   ghostat (*upgrade).valid#1: ggb_answerNow() = (ctx.upgrade.Heartbeat == 1 || ctx.upgrade.Stream == 3)
 //@   ensures [C04] implies(err == nil && ggb_answerNow(), gg_wresp() == old(gg_wresp()) + 1 && gg_exec() == old(gg_exec()))
+//@   ghostat scheduler.Scheduler.Schedule#1: gg_wgowed() = gg_wgowed() + 1
+//@   ghostat scheduler.Scheduler.Schedule#2: gg_wgowed() = gg_wgowed() + 1
+//@   ghostat scheduler.Schedule#1: gg_wgowed() = gg_wgowed() + 1
+//@   ensures [C10 C20] gg_wgadd() - old(gg_wgadd()) == gg_wgowed() - old(gg_wgowed()) && gg_wgdone() == old(gg_wgdone())
 //@ func (*Server).ServeRequest$1
 //@   requires true
 //@ func (*Server).ServeRequest$2
 //@   property C09
 //@   requires srvOK(server) && ctx != nil && !isnil(ctx.codec)
 //@ func (*Server).ServeRequest$3
+//@   requires [C10 C20] !isnil(wg)
+//@   ensures [C10 C20] gg_wgdone() == old(gg_wgdone()) + 1
 //@   requires [C08 C04] !gb_registered(ctx)
 //@   requires [C04] ctx.upgrade.Heartbeat != 1
 //@   requires [C08] validUpgrade(ctx.upgrade)
 //@   property C04 C08
 //@   requires srvOK(server) && ctxOK(ctx) && ctx.upgrade.Stream == 2 && implies(ctx.ctx != nil, ctx.ctx.stream != nil)
 //@ func (*Server).ServeRequest$4
+//@   requires [C10 C20] !isnil(wg)
+//@   ensures [C10 C20] gg_wgdone() == old(gg_wgdone()) + 1
 //@   requires [C08 C04] !gb_registered(ctx)
 //@   requires [C04] ctx.upgrade.Heartbeat != 1
 //@   requires [C08] validUpgrade(ctx.upgrade)
 //@   property C04 C05 C08
 //@   requires srvOK(server) && ctxOK(ctx) && ctx.upgrade.Stream == 0
 //@ func (*Server).ServeRequest$5
+//@   requires [C10 C20] !isnil(wg)
+//@   ensures [C10 C20] gg_wgdone() == old(gg_wgdone()) + 1
 //@   requires [C08 C04] !gb_registered(ctx)
 //@   requires [C04] ctx.upgrade.Heartbeat != 1
 //@   requires [C08] validUpgrade(ctx.upgrade)
@@ -1160,6 +1224,15 @@ package rpc
 //@ extern sync.(*WaitGroup).Wait
 //@   params wg
 //@   ghostset gg_wgwait() = gg_wgwait() + 1
+// wait-group balance (teardown waits in wg.Wait(), so an Add without a Done is a hang): gg_wgadd counts Add(1), gg_wgdone counts
+// Done, gg_wgowed counts scheduled tasks that were handed the wait group and therefore owe one Done
+//@ extern sync.(*WaitGroup).Add
+//@   params wg, delta
+//@   requires [C10 C20] delta == 1
+//@   ghostset gg_wgadd() = gg_wgadd() + 1
+//@ extern sync.(*WaitGroup).Done
+//@   params wg
+//@   ghostset gg_wgdone() = gg_wgdone() + 1
 //@ func (*Server).ServeCodec
 //@   property C04 C08 C10 C20
 //@   requires srvOK(server) && !isnil(codec)
@@ -1172,6 +1245,7 @@ package rpc
 //@ func (*Server).ServeCodec$1
 //@   property C04 C05 C08
 //@   requires srvOK(server) && ctxOK(ctx) && streamsOK(streams) && !gb_registered(ctx)
+//@   requires [C10 C20] !isnil(wg)
 //@   requires [C05] implies(server.pipelining, !isnil(sched))
 //@   atcall (*Server).ServeRequest#1: [C05] implies(server.pipelining, !isnil(arg4))
 
